@@ -228,6 +228,13 @@ def oracle(rng, thorough, deep=False, hints=None):
                           seed=int(rng.integers(0, 10000)),
                           history=[["hp", "hp_ft", "pipe_hp", "backend_hp", "lp", "lp_ft"][int(k)]
                                    for k in rng.integers(0, 6, size=int(rng.integers(1, 4)))] if it % 2 else []))
+    # sides with large prime factors (FFT-unfriendly lengths) and long axes (index arithmetic beyond 8/16-bit ranges)
+    awkward = [(13, 6, 5), (6, 17, 4), (5, 4, 26), (19, 13, 23), (2, 3, 364), (2, 400, 3), (512, 2, 2), (1, 1, 1031),
+               (3, 2, 131), (37, 1, 2), (2, 259, 2), (1, 70000, 1)]
+    for it, shape in enumerate(awkward if (thorough or deep) else awkward[:8]):
+        for entry in (entries if it < 8 else entries[:2]):
+            cases.append(dict(shape=list(shape), cutoff=float(rng.choice([0.2, 0.35, 0.5])), order=int(rng.choice([1, 2])),
+                              entry=entry, seed=int(rng.integers(0, 10000)), history=[]))
     # always: a high-pass call with the same (shape, cutoff, order) right before the low-pass under test
     for hist, entry in ((["hp"], "utils"), (["pipe_hp"], "pipe"), (["hp_ft"], "utils_ft"), (["backend_hp"], "backend"),
                         (["hp", "lp", "hp", "hp"], "utils"), (["hp"], "pipe")):
